@@ -321,7 +321,7 @@ func (w *World) verifyFunc(key string) (f *FuncCtx, err error) {
 		}
 	}
 	// panic obligations
-	if c.NoPanic || c.PanicsOnly != nil {
+	if (c.NoPanic && !c.NoPanicTrusted) || c.PanicsOnly != nil {
 		for _, p := range panics {
 			goal := "false"
 			if c.PanicsOnly != nil {
